@@ -196,8 +196,11 @@ def run_actions(version, actions, sleeping=True):
             if r.complete(a[1]) and mops is not None:
                 mops += [f"E {1 if a[1] else 0}", "B"]
         elif a[0] == "cancel":
-            r.cancel_listener()
-            mops = None            # not a schedule of the model (Flush.v has no cancellation)
+            # for the buffer bookkeeping a cancelled release write is the model's failing write
+            # (FEnd false): nothing reached the wire, the entry stays, the listener leaves the flush
+            had = bool(r.tr.pending)
+            if r.cancel_listener() and had and mops is not None:
+                mops += ["E 0", "B"]
     r.quiesce([1, 2])
     return r, mops
 
@@ -329,13 +332,16 @@ def run(ctx, model_available=True):
                     if with_send:
                         acts.append(("send", KEYS[parked[-1]], 250))
                     acts.append(("cancel",))
-                    r, _ = run_actions(version, acts)
+                    r, mops_c = run_actions(version, acts)
                     dist["schedules_run"] += 1
                     dist["listener_cancelled"] = dist.get("listener_cancelled", 0) + 1
                     kinds.add((version, len(parked), "cancel", k, with_send))
                     for sig, desc in oracle(r, acts)[:2]:
                         failures.append({"kind": "oracle", "sig": sig, "desc": f"protocol {version}, listener cancelled inside release write {k + 1}, schedule {acts}: {desc}",
                                          "case": {"version": version, "actions": acts}})
+                    if mops_c is not None:
+                        d.add(encode_model(mops_c))
+                        expect.append((version, acts, r.written(), r.buffer(), r.sent))
                     r.close()
     # sends to nodes that are awake while another node's flush is suspended: direct writes race too
     for _ in range(ctx.budget(100, 1500)):
